@@ -18,6 +18,8 @@ package main
 //	    | ( arr REST ( cks SZ* ) S* ) | ( tup REST ( cks SZ* ) S* )     REST ::= - | S
 //	    | ( rec S S SZ* )
 //	    | ( union S+ ) | ( xor S+ ) | ( and S S )
+//	    | ( id NAME S )            S.Meta(GlobalMeta{ID: NAME}) — the converter hoists it into $defs (NAME is one token)
+//	    | ( re NAME ) among CK     String().Regex(<table entry NAME>)   (rxTable in gen.go / Rx in the Lean model)
 //	J ::= n | t | f | qZ | s:CP.CP… | ( a J* ) | ( o ( STR J )* )
 
 import (
@@ -51,6 +53,7 @@ type Sch struct {
 	Fields []Field
 	Items  []*Sch // arr/tup items, union/xor members, and (2)
 	Rest   *Sch
+	Name   string // id: registry ID
 }
 
 type J struct {
@@ -83,6 +86,8 @@ func (c Ck) String() string {
 		return c.Op
 	case "sw", "ew", "inc":
 		return "( " + c.Op + " " + encStr(c.S) + " )"
+	case "re":
+		return "( re " + c.S + " )"
 	}
 	return fmt.Sprintf("( %s %d )", c.Op, c.N)
 }
@@ -129,6 +134,8 @@ func (s *Sch) String() string {
 		return b.String() + " )"
 	case "opt", "nul":
 		return "( " + s.K + " " + s.Elem.String() + " )"
+	case "id":
+		return "( id " + s.Name + " " + s.Elem.String() + " )"
 	case "obj":
 		var b strings.Builder
 		p := "-"
